@@ -16,9 +16,11 @@ sys_path_tools = os.path.join(VERIF, "tools")
 import sys as _sys
 if sys_path_tools not in _sys.path:
     _sys.path.insert(0, sys_path_tools)
-from gen_harness import PALETTE16, query_family, entries_family, views_text, filter_text  # noqa: E402
-QFAM = {5: query_family(5), 16: query_family(16)}
-EFAM = {5: entries_family(5), 16: entries_family(16)}
+from gen_harness import PALETTE16, PALETTE9, query_family, entries_family, views_text, filter_text  # noqa: E402
+QFAM = {5: query_family(5), 9: query_family(9), 16: query_family(16)}
+EFAM = {5: entries_family(5), 9: entries_family(9), 16: entries_family(16)}
+PALETTES = {9: PALETTE9, 16: PALETTE16}
+REG_BIN = {5: "wh", 9: "wh9", 16: "wh16"}
 CACHE = os.path.join(BUILD, "cache")
 
 
@@ -52,8 +54,8 @@ def gen_case(rng, max_ops, mirror=False, ncomp=5):
     else:
         # only the instantiated shapes can be named by insert/extend/reserve; Entry::add/remove reach the others
         for _ in range(rng.choice([2, 3, 4, 5])):
-            palette.append(rng.choice(PALETTE16))
-        anymask = lambda: rng.choice(PALETTE16)  # noqa: E731
+            palette.append(rng.choice(PALETTES[ncomp]))
+        anymask = lambda: rng.choice(PALETTES[ncomp])  # noqa: E731
     lines.append("new 0 %d %d %d %d" % (fresh(), fresh(), fresh(), fresh()))
 
     def comps_of(mask, desc):
@@ -96,7 +98,7 @@ def gen_case(rng, max_ops, mirror=False, ncomp=5):
         elif kind == "xrg":
             # ragged batch through the safe constructor: must be refused
             mask = rng.choice([m_ for m_ in palette if bin(m_).count("1") >= 2]
-                              or ([3] if NCOMP == 5 else [m_ for m_ in PALETTE16 if bin(m_).count("1") >= 2]))
+                              or ([3] if NCOMP == 5 else [m_ for m_ in PALETTES[NCOMP] if bin(m_).count("1") >= 2]))
             desc = rng.below(2)
             cs = comps_of(mask, desc)
             desc = desc if len(cs) <= 6 else 0
@@ -210,7 +212,7 @@ def gen_case(rng, max_ops, mirror=False, ncomp=5):
                 m = rng.weighted([("none", 2), ("dupid", 4), ("setid", 3), ("gen", 2), ("freeadd", 3), ("freedel", 3),
                                   ("freedup", 2), ("freelive", 3), ("len", 3), ("alen", 2), ("byte", 4), ("addbyte", 1),
                                   ("delbyte", 1), ("delval", 2), ("addval", 2), ("poison", 3), ("delrow", 3), ("duprow", 3),
-                                  ("delarch", 2), ("duparch", 2), ("emptyarch", 3), ("freeold", 3)])
+                                  ("delarch", 2), ("duparch", 2), ("emptyarch", 3), ("freeold", 3), ("freegenmax", 2)])
                 a = [rng.below(8) for _ in range(4)]
                 if m == "setid":
                     return "setid %d %d %d %d" % (a[0], a[1], rng.below(12), rng.below(3))
@@ -266,7 +268,7 @@ def gen_case(rng, max_ops, mirror=False, ncomp=5):
     return lines
 
 
-PAR_SHAPES = {5: [0b00001, 0b00011, 0b00110, 0b01101, 0b11111, 0b10100, 0b01000], 16: None}
+PAR_SHAPES = {5: [0b00001, 0b00011, 0b00110, 0b01101, 0b11111, 0b10100, 0b01000], 9: None, 16: None}
 
 
 def gen_par_case(rng, ncomp=5):
@@ -278,7 +280,7 @@ def gen_par_case(rng, ncomp=5):
         tok[0] += 1
         return tok[0]
     lines = ["new 0 %d %d %d %d" % (fresh(), fresh(), fresh(), fresh())]
-    pal = PAR_SHAPES[ncomp] or [m for m in PALETTE16 if 0 < bin(m).count("1") <= 6]
+    pal = PAR_SHAPES[ncomp] or [m for m in PALETTES[ncomp] if 0 < bin(m).count("1") <= 6]
     shapes = [rng.choice(pal) for _ in range(rng.choice([1, 2, 2, 3]))]
     issued = 0
     for m in shapes:
@@ -306,26 +308,33 @@ def gen_par_case(rng, ncomp=5):
 
 def gen_cases(seed, count, max_ops):
     """About two thirds of the histories run on the 5-component registry, the rest on the 16-component one
-    (marked by a first line `%reg 16`)."""
+    (`%reg 16`: LEN % 8 == 0) and on the 9-component one (`%reg 9`: LEN % 8 == 1, the last component alone in
+    the second identifier byte)."""
     rng = SplitMix(seed)
     n16 = count // 3
+    n9 = n16 // 2
     out = [gen_case(rng.fork(), max_ops) for _ in range(count - n16)]
-    out += [["%reg 16"] + gen_case(rng.fork(), max_ops, ncomp=16) for _ in range(n16)]
+    out += [["%reg 16"] + gen_case(rng.fork(), max_ops, ncomp=16) for _ in range(n16 - n9)]
+    r9 = SplitMix(seed * 13 + 5)
+    tail9 = [["%reg 9"] + gen_case(r9.fork(), max_ops, ncomp=9) for _ in range(n9)]
     # fault-injection cases (C17): about as many again, short
     frng = SplitMix(seed * 31 + 7)
     nf = count // 2
     out[count - n16:count - n16] = [gen_fault_case(frng.fork(), 5) for _ in range(nf - nf // 4)]
-    out += [["%reg 16"] + gen_fault_case(frng.fork(), 16) for _ in range(nf // 4)]
+    out += [["%reg 16"] + gen_fault_case(frng.fork(), 16) for _ in range(nf // 4 - nf // 10)]
+    tail9 += [["%reg 9"] + gen_fault_case(r9.fork(), 9) for _ in range(nf // 10)]
     # parallel-iteration cases (C09): archetypes long enough to be split
     prng = SplitMix(seed * 17 + 3)
     npar = max(8, count // 8)
     out += [gen_par_case(prng.fork(), 5) for _ in range(npar - npar // 3)]
-    out += [["%reg 16"] + gen_par_case(prng.fork(), 16) for _ in range(npar // 3)]
-    return out
+    out += [["%reg 16"] + gen_par_case(prng.fork(), 16) for _ in range(npar // 3 - npar // 8)]
+    tail9 += [["%reg 9"] + gen_par_case(r9.fork(), 9) for _ in range(max(1, npar // 8))]
+    return out + tail9
 
 
 FAULT_SHAPES = {5: [0b01101, 0b11111, 0b01001, 0b10100, 0b00101, 0b01111, 0b11000],
-                16: [0x0081, 0x0180, 0x8001, 0x0300, 0x4102, 0x0A0A, 0x1030, 0x0409]}
+                16: [0x0081, 0x0180, 0x8001, 0x0300, 0x4102, 0x0A0A, 0x1030, 0x0409],
+                9: [0x101, 0x180, 0x081, 0x102, 0x1C0, 0x110, 0x155]}
 
 
 def gen_fault_case(rng, ncomp=5):
@@ -385,7 +394,11 @@ def gen_fault_case(rng, ncomp=5):
         cands += [("clone", "clf %d %d" % (ws, other)), ("drop", "clf %d %d" % (ws, other)), ("clone", "clf %d %d" % (other, ws)),
                   ("eq", "eq %d %d" % (ws, other))]
     kind, op = rng.choice(cands)
-    lines.append("fault %s %d" % (kind, rng.choice([0, 0, 1, 1, 2, 3, 4, 6, 9])))
+    if rng.chance(1, 5) and op.split()[0] in ("cln", "clf", "eq", "dbg", "srd", "drop", "mde", "rset"):
+        # the callback of a resource (cloned, compared, serialized ... after the components)
+        lines.append("fault %s %d res" % (kind, rng.choice([0, 0, 1, 2, 3])))
+    else:
+        lines.append("fault %s %d" % (kind, rng.choice([0, 0, 1, 1, 2, 3, 4, 6, 9])))
     lines.append(op)
     # Probes after the (caught) panic: safe calls through every identifier issued so far, then a clear.  They are
     # not compared with the model (which has no post-panic state); what they show is memory evidence (ledger,
@@ -408,7 +421,9 @@ def gen_fault_case(rng, ncomp=5):
 
 
 def case_reg(c):
-    return 16 if c and c[0].startswith("%reg 16") else 5
+    if c and c[0].startswith("%reg 16"):
+        return 16
+    return 9 if c and c[0].startswith("%reg 9") else 5
 
 
 def is_fault_case(impl_case):
@@ -490,12 +505,15 @@ def oracle_fault_case(impl_case):
         bad.append("allocator: " + x)
     # The index structures safe calls go through unchecked (slot -> row, stored identifier -> slot, free list) must
     # agree with the storage after the panic was caught: `entry`, `remove` and `clear` index with them without a
-    # bounds check, so a disagreement is freed or foreign memory touched "later".  (len() is not memory-relevant
-    # and is not judged here.)
+    # bounds check, so a disagreement is freed or foreign memory touched "later".  len() is not memory-relevant:
+    # a stale count after the panic is judged under C13 ("at every moment ... len() equals the number of stored
+    # entities"), not under C17.
     if fired and target.get("worlds"):
         for ws_, w_ in sorted(target["worlds"].items()):
             for b_ in check_inv(w_):
                 if b_.startswith("len "):
+                    fails.append((fi + 1, "C13", "world %d after the caught panic injected into callback `%s` of `%s`: %s"
+                                  % (ws_, kind, target["op"], b_)))
                     continue
                 bad.append("world %d after the caught panic: %s" % (ws_, b_))
     if bad and fired:
@@ -543,7 +561,7 @@ def run_cases(cases, workdir, shards=16, tag="wh"):
     procs = []
     for s, (a, b, reg) in enumerate(chunks):
         chunk = cases[a:b]
-        wh = os.path.join(TARGET, "debug", "wh" if reg == 5 else "wh16")
+        wh = os.path.join(TARGET, "debug", REG_BIN[reg])
         ops = os.path.join(workdir, "%s.%d.ops" % (tag, s))
         with open(ops, "w") as f:
             for i, c in enumerate(chunk):
@@ -1539,7 +1557,7 @@ def engine(seed, tier):
     import pickle
     count, max_ops = (320, 60) if tier == "quick" else (6000, 220)
     build_extract()
-    err = build_harness(["wh", "wh16"])
+    err = build_harness(["wh", "wh9", "wh16"])
     if err:
         raise Infra("harness does not build against /repo:\n" + err[-3000:])
     key = "%s-%s-%s-%s" % (repo_hash()[:16], verif_hash()[:16], seed, tier)
